@@ -287,6 +287,113 @@ def explain_win(off, snippet, after, wide):
     return d
 
 
+# ---- the line-ending convention of the FILE (LF, CRLF, lone CR), with and without a snippet marker, must not change
+# what is read: reuse_info_of_file reads differently sized parts depending on the marker
+EOL_LINES = [
+    "<!-- SPDX-License-Identifier: MIT -->",
+    "<!-- SPDX-FileCopyrightText: 2020 Jane Doe -->",
+    "<%-- SPDX-FileContributor: Alice Example --%>",
+    "{{!-- SPDX-License-Identifier: 0BSD --}}",
+    "/* SPDX-FileCopyrightText: 2021 Acme */",
+    "# SPDX-License-Identifier: GPL-3.0-or-later",
+]
+EOLS = ["\n", "\r\n", "\r"]
+
+
+def eol_story(e, snippet, after, final):
+    eol = EOLS[0]
+    for i, v in enumerate(EOLS):
+        if e == i:
+            eol = v
+    lines = list(EOL_LINES) + ["code = 1"]
+    if snippet:
+        lines = (lines + ["# SPDX-SnippetBegin"]) if after else (["# SPDX-SnippetBegin"] + lines)
+
+    def read(sep):
+        data = (sep.join(lines) + (sep if final else "")).encode("utf-8")
+        saved = (ex.Path, ex.relative_from_root)
+        ex.Path = lambda p: p
+        ex.relative_from_root = lambda p, root: _Rel(str(p))
+        try:
+            info = ex.reuse_info_of_file(FakeFilePath(data), FakeFilePath(data), "/proj")
+        except Exception as exc:  # noqa
+            return "raised " + type(exc).__name__
+        finally:
+            ex.Path, ex.relative_from_root = saved
+        return [sorted(str(x) for x in info.spdx_expressions), sorted(info.copyright_lines), sorted(info.contributor_lines)]
+
+    want = [["0BSD", "GPL-3.0-or-later", "MIT"], ["2020 Jane Doe", "2021 Acme"], ["Alice Example"]]
+    got = read(eol)
+    got = got if isinstance(got, str) else [got[0], [c.replace("SPDX-FileCopyrightText: ", "") for c in got[1]], got[2]]
+    return got == want, {"line_ending": repr(eol), "snippet_marker": bool(snippet), "marker_after": bool(after), "final_line_ending": bool(final), "got": got, "expected": want}
+
+
+def _eol(e: int, snippet: bool, after: bool, final: bool) -> bool:
+    """
+    pre: 0 <= e < 3
+    post: _
+    """
+    return eol_story(e, snippet, after, final)[0]
+
+
+def _eol_reach(e: int, snippet: bool, after: bool, final: bool) -> bool:
+    """
+    pre: 0 <= e < 3
+    post: False
+    """
+    return eol_story(e, snippet, after, final)[0]
+
+
+def explain_eol(*a):
+    return eol_story(*a)[1]
+
+
+# ---- reading is a function of the text alone: what an earlier file of the same run held must not show
+SPELLINGS = [("MIT", "mit"), ("LicenseRef-ACME", "LicenseRef-acme"), ("Apache-2.0", "apache-2.0"), ("MIT OR 0BSD", "MIT  or  0BSD"), ("GPL-2.0-only", "GPL-2.0-ONLY")]
+
+
+def hist_story(i, swap, third):
+    pair = SPELLINGS[0]
+    for n, v in enumerate(SPELLINGS):
+        if i == n:
+            pair = v
+    first, second = (pair[1], pair[0]) if swap else pair
+    seq = [first, second] + ([first] if third else [])
+    got, want = [], []
+    for ident in seq:
+        text = "# SPDX-FileCopyrightText: 2020 Jane Doe\n# SPDX-License-Identifier: " + ident + "\n"
+        try:
+            info = ex.extract_reuse_info(text)
+            got.append(sorted(str(x) for x in info.spdx_expressions))
+        except Exception as exc:  # noqa
+            got.append("raised " + type(exc).__name__)
+        try:
+            want.append([str(ex._LICENSING.parse(ident))])
+        except Exception as exc:  # noqa
+            want.append("raised " + type(exc).__name__)
+    return got == want, {"identifiers_in_order": seq, "read": got, "each_read_alone": want}
+
+
+def _hist(i: int, swap: bool, third: bool) -> bool:
+    """
+    pre: 0 <= i < len(SPELLINGS)
+    post: _
+    """
+    return hist_story(i, swap, third)[0]
+
+
+def _hist_reach(i: int, swap: bool, third: bool) -> bool:
+    """
+    pre: 0 <= i < len(SPELLINGS)
+    post: False
+    """
+    return hist_story(i, swap, third)[0]
+
+
+def explain_hist(*a):
+    return hist_story(*a)[1]
+
+
 # ---- copyright notices on lines separated by every kind of line break str.splitlines knows (CR-only files ...)
 SEPS = [13, 11, 12, 28, 29, 30, 133, 8232, 8233]
 
@@ -332,4 +439,4 @@ def explain_sep(si, tag):
     return sep_story(si, tag)[1]
 
 
-EXPLAIN = {"_tag": explain_tag, "_win": explain_win, "_marker": explain_marker, "_sep": explain_sep}
+EXPLAIN = {"_hist": explain_hist, "_eol": explain_eol, "_tag": explain_tag, "_win": explain_win, "_marker": explain_marker, "_sep": explain_sep}
